@@ -77,6 +77,10 @@ Record inv (n : N) (st : state) : Prop := {
   i_pong : k_ws st = WOpen -> k_sc st <> [] -> s_ws st = false -> s_cand st = CProbed;
   i_pre : (k_ws st = WNone \/ k_ws st = WDialing) -> k_sc st = [] /\ k_cs st = [];
   i_closed : broke st = false -> c_closed st = false /\ s_closed st = false;
+  i_paused : c_paused st = true -> c_cand st = KProbe \/ c_cand st = KSwapWait;
+  i_ptm : c_cand st = KProbe -> c_tm st <> TOff;
+  i_sw : (c_cand st = KProbe \/ c_cand st = KSwapWait) -> c_paused st = true;
+  i_idle : c_committed st = true -> c_loop st <> LFlight;
   b_sc : s_ws st = false -> cnt n (k_sc st) = 0;
   b_cs : c_ws st = false -> cnt n (k_cs st) = 0;
   b_pq : s_ws st = true -> cnt n (s_pq st) = 0;
@@ -221,7 +225,7 @@ Ltac split1 :=
   end; cbn in *; fw; cbn in *; absurd_now.
 
 Ltac go I H :=
-  destruct I as [i_sc i_cup i_exit i_rl i_wsrl i_tok i_park i_woke i_bad i_up1 i_up2 i_lexit i_open i_cand i_upg i_noupg i_pong i_pre i_closed b_sc b_cs b_pq b_s2c b_c2s];
+  destruct I as [i_sc i_cup i_exit i_rl i_wsrl i_tok i_park i_woke i_bad i_up1 i_up2 i_lexit i_open i_cand i_upg i_noupg i_pong i_pre i_closed i_paused i_ptm i_sw i_idle b_sc b_cs b_pq b_s2c b_c2s];
   unfold c_committed, s_upgraded in *;
   cbn in *; dmatch H; injection H as <-;
   try (match goal with x : lst |- _ => pose proof (lflight_le x) end);
